@@ -1185,6 +1185,13 @@ def run_dead_connection_case(case: dict) -> Outcome:
         )
     if not r["serving"]:
         raise Violation("server-stopped", "serve_forever() ended because of one dead connection", **detail)
+    if case["errno"] in DEAD_ERRNOS and not r["thrown_injected"] and not r["faulty_closed"]:
+        raise Violation(
+            "connection-error-masked",
+            f"the dead connection's error ({case['errno']}) was never thrown into its handler (idle timeout {case['idle_timeout']!r}: {r['thrown']} other errors, "
+            "i.e. time-outs, instead) and the connection was not closed either: the application never learns that the peer is gone",
+            **detail,
+        )
     if case["errno"] in DISCONNECT_ERRORS:
         if r["thrown_injected"]:
             raise Violation(
@@ -1212,7 +1219,7 @@ def st_dead_connection_case(draw: st.DrawFn, tier: str) -> dict:
         "errno": draw(st.sampled_from(sorted(DEAD_ERRNOS) + sorted(DISCONNECT_ERRORS) + ["PARSE", "PARSE"])),
         "malformed": draw(st.sampled_from([3, 60, 500, 3000])),
         "handler": draw(st.sampled_from(["idle-timeout", "catch-all", "return-on-error"])),
-        "idle_timeout": draw(st.sampled_from([None, 0.5, 5.0])),
+        "idle_timeout": draw(st.sampled_from([None, 0.5, 5.0, 0.0])),  # 0: a polling handler
         "buffered": draw(st.booleans()),
         "healthy": draw(st.integers(1, 2)),
         "request_gaps": draw(st.lists(st.sampled_from([0.25, 0.5, 1.0]), min_size=1, max_size=4)),
